@@ -514,6 +514,37 @@ End Algo.
 Definition impl_model (H : str -> str) := normalize_with H true.
 Definition impl_model_prefix (H : str -> str) := normalize_with H false.
 
+(* ---------- vocabulary of the statements ---------- *)
+Definition comp_label (c : N * term) : list str :=
+  match bnode_id (snd c) with Some b => [b] | None => [] end.
+Definition bnodes_q (q : quad) : list str := flat_map comp_label (comps q).   (* with repetitions *)
+Definition bnodes (d : list quad) : list str := flat_map bnodes_q d.
+Definition rename_t (f : str -> str) (t : term) : term :=
+  match t with Bnode b => Bnode (f b) | _ => t end.
+Definition rename_q (f : str -> str) (q : quad) : quad :=
+  let '(s, p, o, g) := q in (rename_t f s, rename_t f p, rename_t f o, option_map (rename_t f) g).
+(* the identifier map as a function *)
+Definition id_of (issued : issuer) (b : str) : str :=
+  match iss_get issued b with Some id => id | None => b end.
+Definition c14n_id (k : nat) : str := s_c14n ++ dec (N.of_nat k).
+(* the domain of RDFC-1.0: no blank predicate, no quoted triple, no variable *)
+Definition supported_q (q : quad) : bool :=
+  match bnode_id (q_pred q) with Some _ => false | None => true end
+  && forallb (fun c => negb (is_bad (snd c))) (comps q).
+Definition supported (d : list quad) : bool := forallb supported_q d.
+(* the first-degree hash of blank node b in dataset d (steps 2 and 3 of relabel_with) *)
+Definition first_degree (H : str -> str) (once : bool) (d : list quad) (b : str) : option str :=
+  match step2 once d [] with
+  | Ok m => option_map (h1d H b) (bt_get m b)
+  | Err _ => None
+  end.
+(* strictly increasing keys: the BTreeMap representation invariant *)
+Fixpoint keys_sorted {V} (m : list (str * V)) : Prop :=
+  match m with
+  | [] => True
+  | (k, _) :: r => match r with [] => True | (k', _) :: _ => str_cmp k k' = Lt end /\ keys_sorted r
+  end.
+
 (* ---------- harness-facing ---------- *)
 (* the recorded hash table as a function; a miss gives "!" which is no hexadecimal digest *)
 Definition tbl_H (tbl : list (str * str)) (x : str) : str :=
